@@ -20,7 +20,7 @@ for id in "$@"; do
   echo "patch: applies" >> $r
   echo "suite with patch: $(cargo test --offline 2>&1 | grep -E '^error|test result' | head -3 | tr '\n' ' ')" >> $r
   rm -rf $TMPDIR/* $TMPDIR/.tmp* 2>/dev/null
-  target=$(grep -o 'src/tests/[A-Za-z0-9_/]*\.rs' $d/demo_test.rs | head -1)
+  target=$(grep -oE 'src/[A-Za-z0-9_/]*tests[A-Za-z0-9_/]*\.rs' $d/demo_test.rs | head -1)
   fns=$(grep -A3 -E '^\s*#\[(tokio::)?test' $d/demo_test.rs | grep -oE 'fn [a-zA-Z0-9_]+' | awk '{print $2}' | sort -u)
   if [ -z "$target" ] || [ -z "$fns" ]; then echo "demo: no target/fn found" >> $r; continue; fi
   cat $d/demo_test.rs >> $target
